@@ -9,7 +9,7 @@
    The leader map the implementation computes (period / duration labels) is compared per instance (Periodic.v via the builders),
    and the optimum is compared with the independent fine formulation with equalities (harness/ref.py). *)
 From Coq Require Import QArith ZArith List String Bool.
-From EAO Require Import Num LP Mapping Grid Assets Periodic Merge.
+From EAO Require Import Num LP Mapping Grid Assets Periodic Merge Reference.
 Import ListNotations.
 Open Scope Q_scope.
 
@@ -61,3 +61,19 @@ Example C13_nonvacuous :
   lead_ok exlead /\ merge_lp exlead exP = Build_lp [4; 6] [0; 0] [4; 6] [Build_crow [(0%nat, 1); (0%nat, 1); (1%nat, 1)] RU 5] /\
   expand exlead [1; 2] = [1; 2; 1; 2].
 Proof. split; [apply lead_okb_sound; vm_compute; reflexivity|]. split; vm_compute; reflexivity. Qed.
+
+(* an asset on a coarser frequency of its own: whatever textbook object its problem realises on the coarse grid (Reference.v), the problem
+   with the mapping extended to the minor grid realises the same object -- same admissible states, same cost -- with the flow of every
+   coarse step delivered into its minor steps in proportion to their length; the dispatch of the extended mapping is that spread *)
+Theorem C13_coarse_dispatch_is_spread :
+  forall gdt rg groups, rg_minor rg = Some groups -> NoDup (rg_I rg) ->
+  forall mp mp' x a n t, extend_minor gdt rg mp = Some mp' ->
+  dispatch_out mp' x a n t == qsum (map (fun k => minor_w gdt rg groups k t * dispatch_out mp x a n (nth k (rg_I rg) 0%nat)) (seq 0 (rg_T rg))).
+Proof. exact coarse_dispatch. Qed.
+Print Assumptions C13_coarse_dispatch_is_spread.
+Theorem C13_coarse_realises :
+  forall nm a dec S gdt rg groups mp',
+  realises nm a dec S -> rg_minor rg = Some groups -> NoDup (rg_I rg) -> extend_minor gdt rg (ap_map a) = Some mp' ->
+  realises nm {| ap_lp := ap_lp a; ap_map := mp' |} dec (tb_coarse S gdt rg groups).
+Proof. exact coarse_realises. Qed.
+Print Assumptions C13_coarse_realises.
